@@ -62,7 +62,9 @@ pub fn build_scene(ctx: &Ctx, rng: &mut Rng, names: Vec<Vec<u8>>, links: bool) -
         roots.push((c.as_bytes().to_vec(), observe_root(c.as_bytes(), &dir.join(c))));
     }
     let mut extra = vec![];
-    let mut ecands: Vec<Vec<u8>> = vec![b"outside/of".to_vec(), b"outside/o0".to_vec(), b"./plain".to_vec(), b"outside//o1".to_vec()];
+    let mut ecands: Vec<Vec<u8>> = vec![b"outside/of".to_vec(), b"outside/o0".to_vec(), b"./plain".to_vec(), b"outside//o1".to_vec(),
+        // starting points whose last component is `..` or `.`: in the parent directory the entry is `./..` / `./.`
+        b"outside/o0/..".to_vec(), b"r0/../r1/..".to_vec(), b"outside/o0/.".to_vec()];
     if let Ok(rd) = std::fs::read_dir(dir.join("r0")) {
         use std::os::unix::ffi::OsStrExt;
         let mut kids: Vec<Vec<u8>> = rd.flatten().map(|e| e.file_name().as_bytes().to_vec()).filter(|n| std::str::from_utf8(n).is_ok()).collect();
